@@ -92,6 +92,30 @@ Theorem surplus_values_skipped_elements_kept : forall S xstq st pts hs,
 Proof. exact surplus_values_skipped_elements_kept_l. Qed.
 Print Assumptions surplus_values_skipped_elements_kept.
 
+(* 1d. a ready-made Element given as the VALUE of a declared part (dict form)
+       is sent as it is, in the part's position (it goes through the marshaller,
+       which wraps it: the caller's object is covered by theorem 2, no guard) *)
+Theorem element_value_sent_verbatim : forall S xstq st d pts dict i ce,
+  dict_get (e_name d) dict = Some (HElem i) -> nth_error st i = Some ce ->
+  dict_loop S xstq st (d :: pts) dict =
+    hbind (dict_loop S xstq st pts dict) (fun r => HOk (RFresh (ce_tree ce) :: r)).
+Proof. exact element_value_sent_verbatim_l. Qed.
+Print Assumptions element_value_sent_verbatim.
+
+(* 1e. the declared parts a request is built from are the soap:header children
+       of the operation's wsdl:input, in document order; those of wsdl:output
+       are the reply's and never reach the request *)
+Theorem request_parts_are_the_input_side : forall ins outs,
+  headpart_types (add_operation ins outs) true = ins /\
+  headpart_types (add_operation ins outs) false = outs.
+Proof. exact request_parts_are_the_input_side_l. Qed.
+Print Assumptions request_parts_are_the_input_side.
+
+Theorem reply_header_parts_not_in_request : forall S xstq ins outs wsse sh m st,
+  send (mkCfg S xstq (request_parts ins outs) wsse sh) m st = send (mkCfg S xstq ins wsse sh) m st.
+Proof. exact reply_header_parts_not_in_request_l. Qed.
+Print Assumptions reply_header_parts_not_in_request.
+
 (* 2. the caller's header objects: whatever the configuration (no guard), the
       store of caller elements is the same after the call, content and parent *)
 Theorem caller_objects_untouched : forall g m st, snd (send g m st) = st.
@@ -247,6 +271,21 @@ Proof. eexists. eexists. split; [vm_compute; reflexivity|]. repeat split; vm_com
 
 Example dict_nonvacuous :
   headercontent ex_schema true [] ex_pts None
-    (SHDict [(31, VText 42); (30, VNone); (32, VObj None [(20, false, VText 41)]); (99, VText 43)]) =
+    (SHDict [(31, HVal (VText 42)); (30, HVal VNone); (32, HVal (VObj None [(20, false, VText 41)])); (99, HVal (VText 43))]) =
   HOk ([RFresh (XN 2 32 [] None [XN 1 20 [] (Some 41) []]); RFresh (XN 0 31 [] (Some 42) [])], []).
 Proof. reflexivity. Qed.
+
+(* a ready-made element as a dict value (twice the same object), reply-side
+   parts declared: inside the guard; sent verbatim; the reply part 33 — for
+   which the dict has a value too — is not sent; the variant that registers it
+   on the request side would send it *)
+Definition ex_R : edecl := mkE 33 1 true TBuiltin false false false None.
+Definition ex_dict : soapheaders :=
+  SHDict [(31, HElem 0); (30, HElem 0); (32, HVal (VObj None [(20, false, VText 41)])); (33, HVal (VText 44))].
+Example dict_element_nonvacuous :
+  guard_C17 ex_schema (length ex_store) ex_pts ex_dict = true /\
+  send (mkCfg ex_schema true (request_parts ex_pts [ex_R; ex_H]) None ex_dict) 2 ex_store =
+    (HOk ([ex_x; XN 2 32 [] None [XN 1 20 [] (Some 41) []]; ex_x], []), ex_store) /\
+  fst (send (mkCfg ex_schema true (headpart_types (add_operation_q true ex_pts [ex_R; ex_H]) true) None ex_dict) 2 ex_store) =
+    HOk ([ex_x; XN 2 32 [] None [XN 1 20 [] (Some 41) []]; ex_x; XN 1 33 [] (Some 44) []; ex_x], []).
+Proof. repeat split; reflexivity. Qed.
